@@ -30,6 +30,8 @@ TECHNIQUE += '; Packet.__init__ over falsy recipients and payloads'
 LEVEL_TEXT += ' Added clause: a falsy payload is a payload.'
 TECHNIQUE += '; reader decoding policy; resume-offset contract of receive() on a stand-in file'
 LEVEL_TEXT += " Added clauses: undecodable bytes do not stop the reader; the stored offset is the file's own position."
+TECHNIQUE += '; deliveries lie inside the reading loop'
+LEVEL_TEXT += ' Added clause: offset and seen-set move one record at a time.'
 LEVEL_NOTE = 'Trusted: str.replace and re.sub scan left to right; a text-mode readline() returns a line without trailing newline only at end of file.'
 EXPLANATION = ('Static analysis of /repo sources, TatSu not imported. Stage sequences are extracted from the def-use chain of the '
                'value threaded through pack/unpack; regex literals of the codecs are compiled to NFAs by the checker; receive() is '
